@@ -370,3 +370,30 @@ class Builder:
         if name in ("CNOT", "CNOT_Heralded") and rng.random() < 0.5:
             return getattr(q, name)(0), name + "(0)"
         return getattr(q, name)(), name
+
+
+def as_callback(fn, rng):
+    """The same callback in one of the forms a user may legally hand over (all are functions or methods): the function
+    itself, a lambda, a closure, a bound instance method, a bound class method. Returns (callable, form name)."""
+    form = str(rng.choice(["function", "lambda", "closure", "bound_method", "class_method"]))
+    if form == "function":
+        return fn, form
+    if form == "lambda":
+        return (lambda *a, **k: fn(*a, **k)), form
+    if form == "closure":
+        def outer():
+            def inner(*a, **k):
+                return fn(*a, **k)
+            return inner
+        return outer(), form
+
+    class Lab:
+        target = staticmethod(fn)
+
+        def run(self, *a, **k):
+            return fn(*a, **k)
+
+        @classmethod
+        def run_cls(cls, *a, **k):
+            return cls.target(*a, **k)
+    return (Lab().run, form) if form == "bound_method" else (Lab.run_cls, form)
